@@ -29,6 +29,12 @@ impl LyStr {
     self.0.to_usize()
   }
 
+  /// The address of the managed string object
+  #[cfg(feature = "verif")]
+  pub fn verif_addr(self) -> usize {
+    self.0.to_usize()
+  }
+
   /// Degrade this LyStr into the more generic ObjRefect.
   /// This allows the string to meet the same interface
   /// as the other managed objects
